@@ -1,6 +1,8 @@
 package displayp3
 
 import (
+	"image/color"
+
 	"github.com/mandykoh/prism/adobergb"
 	"github.com/mandykoh/prism/ciexyy"
 	"github.com/mandykoh/prism/ciexyz"
@@ -26,7 +28,10 @@ func verifSpaces() []verifSpace {
 			func(c ciexyz.Color) (float32, float32, float32) { o := adobergb.ColorFromXYZ(c); return o.R, o.G, o.B }},
 		{"prophotorgb", [3]ciexyy.Color{prophotorgb.PrimaryRed, prophotorgb.PrimaryGreen, prophotorgb.PrimaryBlue}, prophotorgb.StandardWhitePoint,
 			func(r, g, b float32) ciexyz.Color { return prophotorgb.ColorFromLinear(r, g, b).ToXYZ() },
-			func(c ciexyz.Color) (float32, float32, float32) { o := prophotorgb.ColorFromXYZ(c); return o.R, o.G, o.B }},
+			func(c ciexyz.Color) (float32, float32, float32) {
+				o := prophotorgb.ColorFromXYZ(c)
+				return o.R, o.G, o.B
+			}},
 		{"displayp3", [3]ciexyy.Color{PrimaryRed, PrimaryGreen, PrimaryBlue}, StandardWhitePoint,
 			func(r, g, b float32) ciexyz.Color { return ColorFromLinear(r, g, b).ToXYZ() },
 			func(c ciexyz.Color) (float32, float32, float32) { o := ColorFromXYZ(c); return o.R, o.G, o.B }},
@@ -116,4 +121,36 @@ func VerifHarness_C04_NegControl() {
 	ref := verifMul3(verifInv3(verifRefMatrix(d.prim, d.white)), verifRefMatrix(s.prim, s.white))
 	want := ref[0][0]*float64(r) + ref[0][1]*float64(g) + ref[0][2]*float64(b)
 	verifAssert(verifAnd(float64(or)-want <= 4e-6, want-float64(or) <= 4e-6), "negative control: reference without chromatic adaptation (wrong on purpose)")
+}
+
+// VerifHarness_C04_PixelStages: the pipeline's first and last stage on 8-bit
+// non-premultiplied pixels of EVERY alpha (C01 fixes decoding for opaque pixels only):
+// decoding an NRGBA pixel in the source space yields (T8[R], T8[G], T8[B]) - the colour
+// does not depend on alpha, alpha 0 included - with alpha A/255 (that this alpha is written back
+// unchanged by every encoder is C14). Source space chosen by the path (4 spaces).
+func VerifHarness_C04_PixelStages() {
+	r, g, b, a := verifU8(), verifU8(), verifU8(), verifU8()
+	px := color.NRGBA{R: r, G: g, B: b, A: a}
+	var cr, cg, cb, al, wr, wg, wb float32
+	switch verifChoice(4) {
+	case 0:
+		c, x := srgb.ColorFromNRGBA(px)
+		cr, cg, cb, al = c.R, c.G, c.B, x
+		wr, wg, wb = srgb.From8Bit(r), srgb.From8Bit(g), srgb.From8Bit(b)
+	case 1:
+		c, x := adobergb.ColorFromNRGBA(px)
+		cr, cg, cb, al = c.R, c.G, c.B, x
+		wr, wg, wb = adobergb.From8Bit(r), adobergb.From8Bit(g), adobergb.From8Bit(b)
+	case 2:
+		c, x := prophotorgb.ColorFromNRGBA(px)
+		cr, cg, cb, al = c.R, c.G, c.B, x
+		wr, wg, wb = prophotorgb.From8Bit(r), prophotorgb.From8Bit(g), prophotorgb.From8Bit(b)
+	default:
+		c, x := ColorFromNRGBA(px)
+		cr, cg, cb, al = c.R, c.G, c.B, x
+		wr, wg, wb = srgb.From8Bit(r), srgb.From8Bit(g), srgb.From8Bit(b)
+	}
+	verifAssert(verifAnd(verifSameF32(cr, wr), verifAnd(verifSameF32(cg, wg), verifSameF32(cb, wb))), "decoding a non-premultiplied 8-bit pixel depends on its alpha (or is not the space's 8-bit table entry)")
+	verifAssert(verifSameF32(al, float32(a)/255), "decoded alpha is not A/255")
+	verifReach("pixel-stages")
 }
